@@ -27,7 +27,7 @@ CLAIMED = {
    note='Process restart is modelled as a pickle round trip; the file system is an in-memory fake bound to DT_String.os/open.'),
  'C18': dict(engine='B-scheduler', level='exploration', ref='4 (C18)',
    technique='deterministic simulation of caller threads: real threads run one at a time under a seeded baton-passing scheduler with sys.settrace line pre-emption inside the package and simulated locks; per-thread results compared with solo runs',
-   text='Seeded search over schedules (single and double pre-emption at every profile line, PCT, random walk, write-biased) of 2-3 threads on one shared template; differential oracle against the same call run alone on a fresh template.',
+   text='Seeded search over schedules (single and double pre-emption at every profile line, PCT, random walk, write-biased) of 2-3 threads on one shared template; differential oracle against the same call run alone on a fresh template in a forked child process.',
    note='Pre-emption granularity is the source line plus a yield inside every scripted call-back (opcode tracing segfaults CPython 3.12.1 and is not used); C-level atomicity under the GIL is assumed.'),
  'C20': dict(engine='C-browser', level='exploration', ref='4 (C20)',
    technique='deterministic simulation of browser + network against the stateless dtml-tree server: seeded click histories with reload / stale-link / lost-cookie faults, checked against a set-of-expanded-paths model and page-cookie consistency',
@@ -83,7 +83,7 @@ m = {
  ],
  'checks': checks,
  'not_applicable': na,
- 'notes': 'All checks: ./check <property> quick|thorough (cwd /verif); exit 0 held, 1 VIOLATION (replay file under replays/), 2 harness error. VERIF_SEED selects the base seed. Fix commits in /repo: 2d359e1 72e22ca e754aab c0834ce (see KNOWN_FINDINGS.txt). Seeded defects used for sensitivity are under seeded/ (46 confirmed changes, DESIGN.md 12.2), behaviour-preserving edits that must stay green under benign/; ./check selftest determinism|sensitivity re-run both catalogues.',
+ 'notes': 'All checks: ./check <property> quick|thorough (cwd /verif); exit 0 held, 1 VIOLATION (replay file under replays/), 2 harness error. VERIF_SEED selects the base seed. Fix commits in /repo: 2d359e1 72e22ca e754aab c0834ce c2d6673 (see KNOWN_FINDINGS.txt). Seeded defects used for sensitivity are under seeded/ (89 confirmed changes, DESIGN.md 12.2), behaviour-preserving edits that must stay green under benign/; ./check selftest determinism|sensitivity re-run both catalogues.',
 }
 json.dump(m, open(V + '/MANIFEST.json', 'w'), indent=1)
 print('claimed:', [c['property_id'] for c in checks])
